@@ -1,7 +1,7 @@
 """R-FEATURES: the wasmparser feature set is what the property says, and the same
 value configures both the parser and the validator."""
 from registry import RuleResult
-from heval import Evaluator, Policy, sym, show, norm_path
+from heval import Evaluator, Policy, sym, show, norm_path, strip_after
 from mirutil import find_fn, flow_locals, calls_to, arg_locals, where
 
 UNSTABLE_EXPECTED = {'MULTI_MEMORY', 'MEMORY64', 'THREADS'}   # named by property C05/C14
@@ -29,7 +29,7 @@ def feature_sets(F):
                 flags.discard(flag)
             else:
                 raise ValueError('unsupported flag operation ' + op)
-        base = w.value
+        base = strip_after(w.value)
         asm = [(show(a[0][1]) if a[0][0] == 'atom' else show(a[0]), a[1]) for a in w.assumptions]
         if asm == [('self.only_stable_features', True)]:
             stable = flags
